@@ -15,6 +15,9 @@ WRK-1: no exception leaves the iteration, task_done exactly once). REL-2: a
 DONE task is kept only when no hard dependency failed or was skipped. A status
 validated before the rest of the result failed validation must not be written;
 raw writes of the worker into the environment sit under the lock (LOCK).
+GRAPH-WHOLE - the graphs that supply the dependencies to the decision are
+the job's own, in the scheduler and inside the backend (never re-bound to a
+pruned / transitively reduced copy).
 Not decided: equality of the final status map across interleavings as such
 (it follows from these rules by argument, no rule computes it).
 '''
@@ -34,6 +37,8 @@ def check(ctx):
     ctx.run(sched_worker.check_wrk2, shared)
     ctx.run(sched_worker.check_wrk1, shared)
     ctx.run(sched_worker.check_raw_lock, shared)
+    ctx.run(sched_rel.check_graph_whole)
+    ctx.run(sched_rel.check_graph_rebound)
 
 
 from ..variants import sched as _v   # noqa: E402
